@@ -59,6 +59,81 @@ def _unit(relpath, cls, route_key, decoder):
     return [mk(int), mk(float)]
 
 
+def u_check_flow_conservation():
+    """graphutils.check_flow_conservation: the gate of the greedy route (and of the conservation rows' applicability): True exactly
+    when every node with both in- and out-edges has *equal* in- and out-sums (exact comparison, no tolerance) and no value is missing."""
+    NAT = z3.Function("node_at", INT, INT)
+    OD, ID = z3.Function("out_degree", INT, INT), z3.Function("in_degree", INT, INT)
+    OF, IF = z3.Function("out_flow_of", INT, INT, REAL), z3.Function("in_flow_of", INT, INT, REAL)
+    OM, IM = z3.Function("out_value_missing", INT, INT, BOOL), z3.Function("in_value_missing", INT, INT, BOOL)
+    OS, IS = z3.Function("out_prefix_sum", INT, INT, REAL), z3.Function("in_prefix_sum", INT, INT, REAL)
+    st = {}
+
+    class Data:
+        def __init__(self, F, M, v, j): self.F, self.M, self.v, self.j = F, M, lift(v), lift(j)
+        def get(self, key, default=None):
+            if core.ctx().decide(self.M(self.v, self.j), "value-missing"):
+                return default
+            return Sym(self.F(self.v, self.j))
+        def __getitem__(self, key):
+            core.ctx().prove("pre:data[flow_attr]-only-where-the-value-exists", z3.Not(self.M(self.v, self.j)), kind="pre")
+            return Sym(self.F(self.v, self.j))
+
+    def interior(v): return z3.And(OD(v) != 0, ID(v) != 0)
+    def balanced(v):
+        i = z3.Int("bi")
+        return z3.And(z3.ForAll([i], z3.Implies(z3.And(i >= 0, i < OD(v)), z3.Not(OM(v, i)))),
+                      z3.ForAll([i], z3.Implies(z3.And(i >= 0, i < ID(v)), z3.Not(IM(v, i)))), OS(v, OD(v)) == IS(v, ID(v)))
+
+    def inv_outer(ns, seq, done):
+        j = z3.Int("oj")
+        return {"every-interior-node-so-far-is-exactly-balanced": z3.ForAll([j], z3.Implies(z3.And(j >= 0, j < lift(done), interior(NAT(j))), balanced(NAT(j))))}
+
+    def inv_inner(var, S, M):
+        def inv(ns, seq, done):
+            v, i = lift(ns["v"]), z3.Int("ii")
+            return {"%s=prefix-sum-of-the-values-seen" % var: lift(ns[var]) == S(v, lift(done)),
+                    "no-missing-value-so-far": z3.ForAll([i], z3.Implies(z3.And(i >= 0, i < lift(done)), z3.Not(M(v, i))))}
+        return inv
+
+    def h(c, f):
+        n = c.fresh_const("n_nodes", INT)
+        c.assume(n >= 0)
+        v, i = z3.Ints("hv hi")
+        for S, F, D in ((OS, OF, OD), (IS, IF, ID)):
+            c.assume(z3.ForAll([v], S(v, 0) == 0))
+            c.assume(z3.ForAll([v, i], z3.Implies(z3.And(i >= 0, i < D(v)), S(v, i + 1) == S(v, i) + F(v, i))))
+            c.assume(z3.ForAll([v], D(v) >= 0))
+
+        class G:
+            def nodes(self): return SymSeq(n, lambda j: Sym(NAT(lift(j))), SInt, "nodes")
+            def out_degree(self, u): return Sym(OD(lift(u)))
+            def in_degree(self, u): return Sym(ID(lift(u)))
+            def out_edges(self, u, data=False):
+                return SymSeq(OD(lift(u)), lambda j: (u, Sym(core.ctx().fresh_const("head", INT)), Data(OF, OM, u, j)), None, "out_edges")
+            def in_edges(self, u, data=False):
+                return SymSeq(ID(lift(u)), lambda j: (Sym(core.ctx().fresh_const("tail", INT)), u, Data(IF, IM, u, j)), None, "in_edges")
+        r = f(G(), "flow")
+        j = z3.Int("pj")
+        if r is True:
+            c.prove("post:True-only-if-every-interior-node-has-exactly-equal-in-and-out-sums-and-no-value-is-missing",
+                    z3.ForAll([j], z3.Implies(z3.And(j >= 0, j < n, interior(NAT(j))), balanced(NAT(j)))), prop=P)
+        elif r is False:
+            c.prove("post:False-only-if-some-interior-node-is-unbalanced-or-lacks-a-value",
+                    z3.Exists([j], z3.And(j >= 0, j < n, interior(NAT(j)), z3.Not(balanced(NAT(j))))), prop=P)
+        else:
+            c.prove("post:result-is-a-bool", z3.BoolVal(False), prop=P)
+
+    hv = lambda nm: (lambda old: Sym(core.ctx().fresh_const(nm, REAL)))
+    loops = {0: dict(inv=inv_outer, prop=P),
+             1: dict(inv=inv_inner("out_flow", OS, OM), prop=P, havoc={"out_flow": hv("out_flow")}, keep=("x", "y", "data")),
+             2: dict(inv=inv_inner("in_flow", IS, IM), prop=P, havoc={"in_flow": hv("in_flow")}, keep=("x", "y", "data"))}
+    from vf.replay import replay_flow_conservation
+    return Unit("flowpaths/utils/graphutils.py", "check_flow_conservation", h, globs=dict(utils=UtilsStub), loops=loops, props=[P], replay=replay_flow_conservation,
+                assumptions=["A2 networkx out_edges/in_edges enumerate exactly the incident edges; degrees are their counts",
+                             "edge values are treated as mathematical reals (float rounding of the sums is outside the encoding)"])
+
+
 def all_units():
-    return _unit("flowpaths/kflowdecomp.py", "kFlowDecomp", "paths", "get_solution_paths") + \
+    return [u_check_flow_conservation()] + _unit("flowpaths/kflowdecomp.py", "kFlowDecomp", "paths", "get_solution_paths") + \
         _unit("flowpaths/kflowdecompcycles.py", "kFlowDecompCycles", "walks", "get_solution_walks")
